@@ -116,7 +116,14 @@ class Check:
             for k, s, d, si in viol:
                 print('  %s %s\n      %s%s' % (s, k, d, ('\n      at ' + si) if si else ''))
             print('VIOLATION property=%s replay=%s' % (self.pid, replay))
+        try:
+            from .interp import Interp
+            touched = sorted(Interp.TOUCHED)
+        except Exception:
+            touched = []
         cov = {
+            'functions_interpreted': len(touched),
+            'functions_interpreted_names': touched,
             'obligations': n_ob,
             'discharged': n_ok,
             'checker_cmd': checker_cmd,
